@@ -10,7 +10,7 @@
      [loop_steps]: the dispatch loop follows them when budget and fuel suffice.
    Generic in the float instance, the build profile and the re-entry function (none is reached). *)
 From Coq Require Import NArith ZArith List Lia Bool.
-From Cao Require Import ListUtil Bits Stacks StacksProofs Bytecode CompilerProofs CompilerWf.
+From Cao Require Import ListUtil Bits Stacks StacksProofs Bytecode CompilerProofs CompilerWf CompilerOk.
 From Cao Require Import Vm VmProofs C04VmProofs.
 Import ListNotations.
 
@@ -340,6 +340,40 @@ Proof.
   - exfalso. eapply Hv; reflexivity.
   - exists (ip + 1 + 4), s. split; [reflexivity | exact Hg].
   - exists (ip + 1 + 4), s. split; [reflexivity | exact Hg].
+Qed.
+
+(* jumps *)
+Lemma jump_target_small pc :
+  pc < 2147483648 -> jump_target bld (i32_to_u32 (u32_to_i32 pc)) = JTo pc.
+Proof.
+  intros H. unfold jump_target. rewrite i32_roundtrip by apply CompilerOk.u32_to_i32_range.
+  rewrite u32_to_i32_small by exact H.
+  destruct (Z.ltb_spec (Z.of_N pc) 0); [lia|]. rewrite N2Z.id. reflexivity.
+Qed.
+
+Lemma ex_goto ip pc stk g :
+  code_at P ip (IGoto (u32_to_i32 pc)) -> pc < 2147483648 ->
+  exec1 (ip, stk, g) (pc, stk, g).
+Proof.
+  intros Hc Hpc. split; [eapply code_at_lt; eauto|]. intros s rem HS. opc Hc.
+  unfold i_28, op_u32. rewrite (code_at_operand1 (w := 4) Hc eq_refl eq_refl (i32_to_u32_fits _)).
+  rewrite (jump_target_small Hpc). eauto.
+Qed.
+
+(* GotoIfTrue (jump_if = true) / GotoIfFalse (jump_if = false): pops the condition *)
+Lemma ex_goto_if (jump_if : bool) ip pc stk c bv g :
+  code_at P ip ((if jump_if then IGotoIfTrue else IGotoIfFalse) (u32_to_i32 pc)) -> pc < 2147483648 ->
+  as_bool F heap0 c = Some bv ->
+  exec1 (ip, stk ++ [c], g) (if Bool.eqb bv jump_if then pc else ip + 5, stk, g).
+Proof.
+  intros Hc Hpc Hb. split; [eapply code_at_lt; eauto|]. intros s rem HS.
+  destruct (St_pop _ _ HS) as (s1 & E1 & HS1).
+  assert (Hh : st_heap s1 = heap0) by (destruct HS1 as (_ & _ & _ & _ & Hh & _); exact Hh).
+  destruct jump_if; opc Hc; unfold i_29_30, op_u32; rewrite E1;
+    rewrite (code_at_operand1 (w := 4) Hc eq_refl eq_refl (i32_to_u32_fits _));
+    rewrite (jump_target_small Hpc), Hh, Hb; cbv beta iota;
+    (eexists; split; [|exact HS1]); destruct bv; cbn [Bool.eqb negb N.eqb Pos.eqb];
+    try reflexivity; replace (ip + 1 + 4) with (ip + 5) by lia; reflexivity.
 Qed.
 
 End Sim.
